@@ -142,14 +142,20 @@ def run(repo, rep, tier):
     rep.saw(oa), rep.saw(fn)
 
     # ---- rule 1: locality ---------------------------------------------------------------------------------------
+    # text renderer, by interpretation (props/_renderer.py): the notes printed for a name, their levels and the unknown-name list are those the
+    # table row of (category, name) implies, for every presentation flag, padding width, size annotation and incoming status
+    from props import _renderer
+    _renderer.verify(repo, rep, ['levels', 'unknown'], {'levels': 'levels', 'unknown': 'unknown'})
+    # ... and, beyond the scenario family, the note list is data- and control-dependent on the table, the category and the name only (backward slice)
     sl = Slice(oa)
-    R = sl.closure({'texts'}, before=sl.last_def_line('texts'))
-    params = {a.arg for a in oa.args.args}
-    got = R & params
-    rep.check('locality', 'text renderer: notes depend only on (table, category, name)', got <= {'alg_db', 'alg_type', 'alg_name'}, oa,
-              'the notes of an algorithm depend on %s' % sorted(got - {'alg_db', 'alg_type', 'alg_name'}), sample={'rule': 'locality', 'function': 'output_algorithm', 'slice_params': sorted(got), 'slice': sorted(R)})
-    badattr = sorted(r for r in R if r.startswith('out.') or r.startswith('HostKeyTest.') or r in ('out',))
-    rep.check('locality', 'text renderer: notes do not read output state', not badattr, oa, 'notes depend on %s' % badattr)
+    if sl.last_def_line('texts') is not None:
+        R = sl.closure({'texts'}, before=sl.last_def_line('texts'))
+        params = {a.arg for a in oa.args.args}
+        got = R & params
+        rep.check('locality', 'text renderer: notes depend only on (table, category, name)', got <= {'alg_db', 'alg_type', 'alg_name'}, oa,
+                  'the notes of an algorithm depend on %s' % sorted(got - {'alg_db', 'alg_type', 'alg_name'}), sample={'rule': 'locality', 'function': 'output_algorithm', 'slice_params': sorted(got), 'slice': sorted(R)})
+        badattr = sorted(r for r in R if r.startswith('out.') or r.startswith('HostKeyTest.') or r in ('out',))
+        rep.check('locality', 'text renderer: notes do not read output state', not badattr, oa, 'notes depend on %s' % badattr)
     oas = repo.func('ssh_audit', 'output_algorithms')
     for n in walk_no_nested(oas):
         if isinstance(n, ast.Call) and call_name(n) == 'output_algorithm':
@@ -216,28 +222,10 @@ def run(repo, rep, tier):
             for cat in sorted(wc):
                 rep.check('name-match', 'new name-matching site %s normalises' % s['func'], s['normalises'], s['node'], 'new name-matching site `%s` does not normalise wildcard names' % s['text'], stmt=s['text'])
 
-    # ---- rule 3: unknown branch ---------------------------------------------------------------------------------------
-    mem = [n for n in walk_no_nested(oa) if isinstance(n, ast.If) and isinstance(n.test, ast.Compare) and isinstance(n.test.ops[0], ast.In) and 'alg_db[alg_type]' in unparse(n.test.comparators[0])]
-    rep.floor('unknown', 'table membership test in the text renderer', len(mem), 1)
-    els = mem[0].orelse
-    apps = [s.value for s in els if isinstance(s, ast.Expr) and isinstance(s.value, ast.Call) and unparse(s.value.func) == 'texts.append']
-    ok = len(apps) == 1 and isinstance(apps[0].args[0], ast.Tuple) and isinstance(apps[0].args[0].elts[0], ast.Constant) and apps[0].args[0].elts[0].value in ('warn', 'fail') and isinstance(apps[0].args[0].elts[1], ast.Constant) and 'unknown' in apps[0].args[0].elts[1].value
-    rep.check('unknown', 'text: unknown name => one warn/fail "unknown algorithm" note', ok, mem[0], 'unknown names are rendered as %s' % [unparse(a) for a in apps])
-    ok = any(isinstance(s, ast.Expr) and isinstance(s.value, ast.Call) and unparse(s.value.func) == 'unknown_algs.append' for s in els)
-    rep.check('unknown', 'text: unknown name is collected for the footer', ok, mem[0], 'unknown names are not collected')
-    # no other path leaves `texts` empty for a non-empty name except the ('info','') placeholder of known names
-    mem2 = [n for n in walk_no_nested(fn) if isinstance(n, ast.If) and isinstance(n.test, ast.Compare) and isinstance(n.test.ops[0], ast.In) and 'alg_db[alg_type]' in unparse(n.test.comparators[0])]
-    rep.floor('unknown', 'table membership test in the JSON renderer', len(mem2), 1)
-    els = mem2[0].orelse
-    ok = len(els) == 1 and isinstance(els[0], ast.Assign) and unparse(els[0].targets[0]) in ('alg_info["fail"]', "alg_info['fail']") and unparse(els[0].value) == '[SSH2_KexDB.FAIL_UNKNOWN]'
-    rep.check('unknown', 'JSON: unknown name => fail [FAIL_UNKNOWN] and nothing else', ok, mem2[0], 'JSON unknown branch is %s' % [unparse(s) for s in els])
+    # ---- rule 3: unknown branch / rule 6: level ordering, JSON view (interpretation model) ---------------------------------------------
+    _renderer.verify_json(repo, rep, 'levels', 'unknown', 'levels')
     fu = ce.lookup('ssh2_kexdb', 'SSH2_KexDB.FAIL_UNKNOWN')
     rep.check('unknown', 'FAIL_UNKNOWN says unknown', isinstance(fu, str) and 'unknown' in fu, repo.cls('ssh2_kexdb', 'SSH2_KexDB'), 'FAIL_UNKNOWN text is %r' % fu)
-    # good presentation only via (first and level == 'info')
-    good = [n for n in walk_no_nested(oa) if isinstance(n, ast.Assign) and unparse(n) == 'f = out.good']
-    ok = len(good) == 1 and any(unparse(t) == "first and level == 'info' or use_good_for_all" and p for t, p, k in path_condition(good[0]))
-    rep.check('unknown', 'the "good" presentation is chosen only when the first note is informational', ok, good[0] if good else oa, 'out.good used under %s' % ([(unparse(t), p) for t, p, k in path_condition(good[0])] if good else '?'))
-
     # ---- rule 4: lookup reuse --------------------------------------------------------------------------------------------
     al = repo.func('ssh_audit', 'algorithm_lookup')
     rep.saw(al)
@@ -291,26 +279,3 @@ def run(repo, rep, tier):
     if not _carried:
         rep.ob('writers', 'no loop-carried value reaches the table writes of perform_test (%d values checked)' % len(_cands), True)
 
-    # ---- rule 6: level ordering ---------------------------------------------------------------------------------------------------
-    en = [n for n in walk_no_nested(oa) if isinstance(n, ast.For) and isinstance(n.iter, ast.Call) and call_name(n.iter) == 'enumerate']
-    ok = len(en) == 1 and unparse(en[0].iter.args[0]) == "['fail', 'warn', 'info']" and unparse(en[0].target) == '(idx, level)'
-    if ok:
-        body = en[0].body
-        inc = [s for s in body if isinstance(s, ast.Assign) and unparse(s) == 'idx = idx + 1']
-        rd = [n for n in walk_no_nested(en[0]) if isinstance(n, ast.For) and unparse(n.iter) == 'alg_desc[idx]']
-        ok = len(inc) == 1 and len(rd) == 1 and rd[0].lineno > inc[0].lineno
-        apps = [n for n in walk_no_nested(rd[0]) if isinstance(n, ast.Call) and unparse(n.func) == 'texts.append'] if rd else []
-        ok = ok and len(apps) == 1 and unparse(apps[0].args[0]) == '(level, t)'
-    rep.check('levels', 'text: rows 1,2,3 of the entry are rendered as fail, warn, info', ok, en[0] if en else oa, 'row-to-level mapping of the text renderer changed')
-    pairs = sorted((unparse(n.targets[0]), unparse(n.value)) for n in walk_no_nested(fn) if isinstance(n, ast.Assign) and isinstance(n.targets[0], ast.Subscript) and unparse(n.targets[0].value) == 'alg_info' and 'alg_desc' in unparse(n.value))
-    norm = sorted((a.replace('"', "'"), ''.join(ch for ch in b if ch.isdigit())) for a, b in pairs)
-    rep.check('levels', 'JSON: rows 1,2,3 map to fail, warn, info', norm == [("alg_info['fail']", '1'), ("alg_info['info']", '3'), ("alg_info['warn']", '2')], fn, 'JSON row-to-level mapping is %s' % pairs)
-    # since-text in both views from row 0
-    st1 = [n for n in walk_no_nested(oa) if isinstance(n, ast.Call) and unparse(n.func) == 'Algorithm.get_since_text']
-    st2 = [n for n in walk_no_nested(fn) if isinstance(n, ast.Call) and unparse(n.func) == 'Algorithm.get_since_text']
-    ok = len(st1) == 1 and len(st2) == 1 and unparse(st2[0].args[0]) == 'alg_desc[0]'
-    if ok:
-        v = unparse(st1[0].args[0])
-        d = [n for n in walk_no_nested(oa) if isinstance(n, ast.Assign) and unparse(n.targets[0]) == v]
-        ok = len(d) == 1 and unparse(d[0].value) == 'alg_desc[0]'
-    rep.check('levels', 'both views derive "available since" from row 0', ok, fn, 'since-text source differs between views')
